@@ -5,7 +5,7 @@
    Only statements here; proofs live in Proofs/C02*.v. *)
 From Coq Require Import List NArith ZArith Bool String.
 From GoGit Require Import Base.Out Model.ObjLines Model.Ident Model.Commit Model.Tag
-     Spec.GitFields Spec.ObjWf Proofs.C02Dec Proofs.C02Ident Proofs.C02Commit.
+     Spec.GitFields Spec.ObjWf Proofs.C02Dec Proofs.C02Ident Proofs.C02Commit Proofs.C02Tag.
 Import ListNotations.
 Local Open Scope N_scope.
 
@@ -45,6 +45,25 @@ Proof.
 Qed.
 Print Assumptions C02_commit_reencode_refuted.
 
+(* ---- tags: same triple ---- *)
+Theorem C02_tag_dec_enc : forall t, wf_tag t = true -> decode_tag (encode_tag t true) = Ok t.
+Proof. exact tag_dec_enc. Qed.
+Print Assumptions C02_tag_dec_enc.
+
+Theorem C02_tag_enc_dec_bytes : forall t b, wf_tag t = true -> b = encode_tag t true ->
+  exists d, decode_tag b = Ok d /\ encode_tag d true = b.
+Proof. intros t b Hwf ->. exists t. split; [now apply tag_dec_enc|reflexivity]. Qed.
+Print Assumptions C02_tag_enc_dec_bytes.
+
+(* stored tags that do not re-encode byte-exactly: an unknown header (Tag keeps none), zone -0000 *)
+Theorem C02_tag_reencode_refuted :
+  (exists d, decode_tag (unhex "6f626a65637420346238323564633634326362366562396130363065353462663864363932383866626565343930340a7479706520747265650a7461672076310a7461676765722047203c6740683e2033202b303230300a782d657874726120760a0a6d0a") = Ok d /\
+             encode_tag d true <> unhex "6f626a65637420346238323564633634326362366562396130363065353462663864363932383866626565343930340a7479706520747265650a7461672076310a7461676765722047203c6740683e2033202b303230300a782d657874726120760a0a6d0a") /\
+  (exists d, decode_tag (unhex "6f626a65637420346238323564633634326362366562396130363065353462663864363932383866626565343930340a7479706520747265650a7461672076310a7461676765722047203c6740683e2033202d303030300a0a6d0a") = Ok d /\
+             encode_tag d true <> unhex "6f626a65637420346238323564633634326362366562396130363065353462663864363932383866626565343930340a7479706520747265650a7461672076310a7461676765722047203c6740683e2033202d303030300a0a6d0a").
+Proof. split; (eexists; split; [vm_compute; reflexivity|vm_compute; discriminate]). Qed.
+Print Assumptions C02_tag_reencode_refuted.
+
 (* ---- "the decoded fields are the ones git itself reports": FALSE of every
         stored object (author behind another header; several '<'), witnesses
         checked against git 2.39.5 by the C-git suite ---- *)
@@ -73,4 +92,12 @@ Example C02_wf_example :
              (str "-----BEGIN SSH SIGNATURE-----" ++ [10])
              (str "subject" ++ [10; 10] ++ str "gpgsig body" ++ [10]) in
   wf_commit c = true /\ decode_commit (encode_commit c true) = Ok c.
+Proof. vm_compute. split; reflexivity. Qed.
+
+Example C02_wf_tag_example :
+  let t := mk_tag (repeat 9 20) (str "commit") (str "v1.0 rc") (mk_ident (str "T") (str "t@x") 7 (-90))
+             (str "-----BEGIN PGP SIGNATURE-----" ++ [10] ++ str "zz" ++ [10])
+             (str "release" ++ [10; 10] ++ str "notes" ++ [10])
+             (str "-----BEGIN SSH SIGNATURE-----" ++ [10] ++ str "abc" ++ [10] ++ str "-----END SSH SIGNATURE-----" ++ [10]) in
+  wf_tag t = true /\ decode_tag (encode_tag t true) = Ok t.
 Proof. vm_compute. split; reflexivity. Qed.
